@@ -16,7 +16,7 @@ ID = "C05"
 LEVEL = "exploration"
 RULE = ("Hypothesis-generated handshakes: 1-3 connect() calls on one object, each with 0..4 keys (fake signers whose signature names key and token; "
         "GetPublicKey returning str or bytes), device policy in {no auth, accepts key k, accepts only the public key, never}, a fresh token per challenge, "
-        "device maxdata, 0-3 stray non-CNXN/AUTH packets before each answer, an AUTH challenge with arg0 != TOKEN while a key is still unused, "
+        "device maxdata, 0-3 stray non-CNXN/AUTH packets before each answer, an AUTH challenge with arg0 != TOKEN while a key is still unused, one more AUTH(TOKEN) after the public key was offered (before the final CNXN or instead of it), "
         "auth_timeout_s, banner str/bytes/None, optional close() in between, both APIs; thorough tier adds two real PythonRSASigner keys verified by integer RSA. "
         "Oracle: reference handshake model predicts the exact host packet sequence, return value / exception type, available, max_chunk_size, callback "
         "count and position, and the transport timeout used while waiting for the user. Non-trivial: >= 2 challenges in one attempt, or a failed attempt followed by another attempt. Distinct = case hash.")
@@ -32,6 +32,8 @@ def cases(draw, real=False):
     if mode == "key":
         auth["accept"] = draw(st.sampled_from(tags + ["kX"]))
         auth["pubkey_ok"] = draw(st.booleans())
+    if mode != "none":
+        auth["rechallenge_after_pubkey"] = draw(st.sampled_from([False, False, True]))     # one more AUTH(TOKEN) after the public key was offered
     nconn = draw(st.integers(1, 3))
     ops = []
     for i in range(nconn):
